@@ -93,7 +93,7 @@ def _configure(mode):
             _CODES[mode] = (sched.nested_code_objects(_rwlock_code()), [])
         else:
             fl = [_ec.__file__, _nt.__file__, _keys.__file__, _ecdsa.__file__, _ecdh.__file__,
-                  _util.__file__, env.plugin.__file__]
+                  _util.__file__, env.plugin.__file__, _curves.__file__]
             line = sched.code_objects_of(fl)
             instr = []
             if mode == "curve-instr":
